@@ -37,7 +37,7 @@ def mutate(raw, rng):
         chunks = iffparse.parse(raw)
     except iffparse.Malformed:
         return None
-    kind = rng.choice(("cval", "cval", "cval", "chdt", "slnk", "slnk-free-last", "slnk2", "pdta", "cmid-param"))
+    kind = rng.choice(("cval", "cval", "cval", "chdt", "slnk", "slnk-free-last", "slnk2", "pdta", "cmid-param", "extra-cvals"))
     out = [[c[0], c[1]] for c in chunks]
     if kind == "cval":
         idx = [i for i, c in enumerate(out) if c[0] == b"CVAL"]
@@ -62,6 +62,17 @@ def mutate(raw, rng):
         vals = list(struct.unpack("<" + "i" * n, out[i][1]))
         vals[rng.randrange(n)] = rng.randint(-1, max(0, nmods - 1))
         out[i][1] = struct.pack("<" + "i" * n, *vals)
+    elif kind == "extra-cvals":
+        # a file from a newer SunVox: more controller values than this library knows for the type (distinct, non-palindromic)
+        ends = [i for i, c in enumerate(out) if c[0] == b"CVAL" and (i + 1 >= len(out) or out[i + 1][0] != b"CVAL")]
+        if not ends:
+            return None
+        i = rng.choice(ends)
+        k = rng.randint(2, 5)
+        extra = [[b"CVAL", struct.pack("<i", 11 * (j + 1) + rng.randrange(5))] for j in range(k)]
+        out[i + 1:i + 1] = extra
+        if i + 1 + k < len(out) and out[i + 1 + k][0] == b"CMID" and rng.random() < 0.5:
+            out[i + 1 + k][1] = out[i + 1 + k][1] + bytes([0, 0, 0, 0, 0, 0, 0, 0xFF]) * k
     elif kind == "slnk2":
         # the explicit slot chunk: an entry set to another small slot number or freed
         idx = [i for i, c in enumerate(out) if c[0] == b"SLnK" and len(c[1]) >= 4]
@@ -162,6 +173,17 @@ def cycle(res, X, origin, desc):
         elif Y != X:
             res.count("files_where_X_differs_from_Y")
         prev = Y
+        if n == 1 and len(Y) < 60000:
+            # another object loaded from the same bytes is edited in place and thrown away; this must not influence
+            # what the bytes Y load as afterwards
+            try:
+                from . import c06
+                side = workload.load(Y)
+                c06.mutate_live(side, random.Random(len(Y)), 6, prefer=("/payload/project/", "/payload/"))
+                res.count("sibling_objects_edited")
+                del side
+            except Exception:
+                pass
         try:
             o = workload.load(Y)
         except Exception as e:
